@@ -4,8 +4,28 @@
    self._sink / self._cover / self._expiry_heap are state variables; SortedList.add / remove and
    MemoryTimeline.fetch on a store without recurring patterns are the library models sl_add,
    sl_remove, fetch_static. *)
-From CG Require Import Model.Loop Gen.Source Model.Cache Proofs.GenEq Proofs.CacheInv.
+From CG Require Import Model.Loop Gen.Source Model.Cache Proofs.CacheInv.
 From Coq Require Import Lia Permutation.
+
+(* ---- generic facts about the loop combinators of Model/Loop.v ---- *)
+(* a `for` loop of a procedure whose body always falls through is a left fold *)
+Lemma iter_for_fold {S A R : Type} (body : S -> A -> step S R) (post : S -> R) (f : S -> A -> S) :
+  (forall s x, body s x = SCont (f s x)) ->
+  forall xs s, iter_for body post s xs = post (fold_left f xs s).
+Proof.
+  intros Hb. induction xs as [|x r IH]; intro s; cbn [iter_for fold_left]; [reflexivity|].
+  rewrite Hb. apply IH.
+Qed.
+
+(* a `for` loop of a generator whose body always falls through and keeps no state *)
+Lemma run_for_flat_map {A B : Type} (body : unit -> A -> list B * unit * ctl) (post : unit -> list B)
+      (f : A -> list B) :
+  (forall x, body tt x = (f x, tt, Cont)) ->
+  forall xs, run_for body post tt xs = flat_map f xs ++ post tt.
+Proof.
+  intros Hb. induction xs as [|x r IH]; cbn [run_for flat_map]; [reflexivity|].
+  rewrite Hb, IH, app_assoc. reflexivity.
+Qed.
 
 (* ---- _purge_sink ---- *)
 Theorem g_cache_purge_sink_eq sk s e : g_cache_purge_sink sk s e = purge_sink sk s e.
